@@ -109,8 +109,17 @@ func c04(r *Run) {
 		okIter := false
 		for _, h := range loopHeaders(rb) {
 			if ifi, ok := h.Instrs[len(h.Instrs)-1].(*ssa.If); ok {
-				if predString(ifi.Cond, true) == "p2 <= phi((builtin.len(p0.ops) - 1), (↺ - 1))" {
-					okIter = true
+				ps := predString(ifi.Cond, true)
+				if ps == "p2 <= phi((builtin.len(p0.ops) - 1), (↺ - 1))" {
+					okIter = true // for i := len-1; i >= restorePoint; i-- over ops[i]
+				}
+				if ps == "p2 < phi(builtin.len(p0.ops), (↺ - 1))" || ps == "p2 < phi((↺ - 1), builtin.len(p0.ops))" {
+					// for i := len; i > restorePoint; i-- : the same indices provided the element undone is ops[i-1]
+					eachInstr(rb, func(ins ssa.Instruction) {
+						if ia, ok := ins.(*ssa.IndexAddr); ok && term(ia.X) == "p0.ops" && (term(ia.Index) == "(phi(builtin.len(p0.ops), (↺ - 1)) - 1)" || term(ia.Index) == "(phi((↺ - 1), builtin.len(p0.ops)) - 1)") {
+							okIter = true
+						}
+					})
 				}
 			}
 		}
